@@ -87,7 +87,8 @@ impl<'a> RenumVisitor<'a> {
             Integer(col, n) => (col, *n as f64),
             _ => return,
         };
-        if n > LineNumber::max_value() as f64 {
+        // Defaults of omitted operands (bare RESTORE, RUN, LIST -n) are not in the text.
+        if n < 0.0 || n > LineNumber::max_value() as f64 || col.is_empty() {
             return;
         }
         let n = n as u16;
